@@ -346,3 +346,9 @@ Proof.
   - intros [a [b E]]. destruct (find_from p s 0) eqn:F; [reflexivity|].
     pose proof (find_from_none_all p s 0 F a (p ++ b) E) as N. rewrite is_prefix_refl_app in N. discriminate.
 Qed.
+
+Lemma trim_end_stops p s : p <> [] -> is_suffix p (trim_end_matches p s) = false.
+Proof.
+  intro Pne. unfold is_suffix, trim_end_matches. rewrite rev_involutive. apply trim_start_stops.
+  intro E. apply Pne. rewrite <- (rev_involutive p), E. reflexivity.
+Qed.
